@@ -433,6 +433,58 @@ def m_int_divrem(ex, st, callee, args, dest_ty):
         yield st2, Sc(z3.simplify(tdiv(a.e, b.e) if isdiv else trem(a.e, b.e)), a.ty)
 
 
+def m_int_methods(ex, st, callee, args, dest_ty):
+    """std integer methods met in refactorings of arithmetic code: euclidean division, wrapping / saturating / checked variants, signum, abs_diff"""
+    name = callee.rsplit("::", 1)[-1]
+    a = deref(ex, st, args[0])
+    b = deref(ex, st, args[1]) if len(args) > 1 else None
+    lo, hi = ty_range(a.ty)
+    sat = lambda r: z3.If(r < lo, z3.IntVal(lo), z3.If(r > hi, z3.IntVal(hi), r))
+    opt = lambda okc, r, ty=None: En("Option", z3.If(okc, z3.IntVal(1), z3.IntVal(0)), {"None": (), "Some": (Sc(z3.simplify(r), ty or a.ty),)})
+    if name in ("rem_euclid", "div_euclid", "checked_rem_euclid", "checked_div_euclid", "checked_div", "checked_rem"):
+        ovf = z3.And(a.e == lo, b.e == -1) if lo < 0 else z3.BoolVal(False)
+        babs = z3.If(b.e < 0, -b.e, b.e)
+        r = {"rem_euclid": a.e % babs, "div_euclid": a.e / b.e, "div": tdiv(a.e, b.e), "rem": trem(a.e, b.e)}[name.replace("checked_", "")]
+        if name.startswith("checked_"):
+            for st2 in ex.branch(st, b.e == 0):
+                yield st2, none()
+            for st2 in ex.branch(st, b.e != 0):
+                yield st2, opt(z3.Not(ovf), r)
+            return
+        for st2 in ex.branch(st, b.e == 0):
+            yield Outcome("panic", st2, msg="%s: division by zero" % callee)
+        if lo < 0:
+            for st2 in ex.branch(st, ovf):
+                yield Outcome("panic", st2, msg="%s: overflow" % callee)
+        for st2 in ex.branch(st, z3.And(b.e != 0, z3.Not(ovf))):
+            yield st2, Sc(z3.simplify(r), a.ty)
+        return
+    if name in ("wrapping_add", "wrapping_sub", "wrapping_mul"):
+        r = {"add": a.e + b.e, "sub": a.e - b.e, "mul": a.e * b.e}[name[9:]]
+        yield st, Sc(z3.simplify(wrap(r, a.ty)), a.ty)
+    elif name in ("saturating_add", "saturating_sub", "saturating_mul"):
+        r = {"add": a.e + b.e, "sub": a.e - b.e, "mul": a.e * b.e}[name[11:]]
+        yield st, Sc(z3.simplify(sat(r)), a.ty)
+    elif name == "wrapping_neg":
+        yield st, Sc(z3.simplify(wrap(-a.e, a.ty)), a.ty)
+    elif name == "wrapping_abs":
+        yield st, Sc(z3.simplify(wrap(z3.If(a.e < 0, -a.e, a.e), a.ty)), a.ty)
+    elif name == "checked_neg":
+        yield st, opt(in_range(-a.e, a.ty), -a.e)
+    elif name == "checked_abs":
+        yield st, opt(a.e != lo, z3.If(a.e < 0, -a.e, a.e))
+    elif name == "signum":
+        yield st, Sc(z3.simplify(z3.If(a.e < 0, z3.IntVal(-1), z3.If(a.e == 0, z3.IntVal(0), z3.IntVal(1)))), a.ty)
+    elif name == "is_negative":
+        yield st, mk_bool(z3.simplify(a.e < 0))
+    elif name == "is_positive":
+        yield st, mk_bool(z3.simplify(a.e > 0))
+    elif name == "abs_diff":
+        yield st, Sc(z3.simplify(z3.If(a.e < b.e, b.e - a.e, a.e - b.e)), "u" + a.ty[1:] if a.ty[0] == "i" else a.ty)
+    else:
+        raise MirUnsupported("integer method " + callee)
+
+
 def m_int_default(ex, st, callee, args, dest_ty):
     yield st, mk_int(0, _int_ty_from(callee) or dest_ty)
 
@@ -1010,6 +1062,7 @@ BASE_MODELS = [
     (R(r"^<[A-Za-z_:]*[A-Z][A-Z0-9_]+ as Deref>::deref$"), m_lazy_deref),
     (R(r"^<((std::string::)?String|Vec<.*>|&.*) as Deref(Mut)?>::deref(_mut)?$"), m_deref_identity),
     (R(r"^(std::string::)?String::as_str$|^<String as AsRef<str>>::as_ref$|^String::as_mut_str$|^<str as AsRef<str>>::as_ref$"), m_deref_identity),
+    (R(r"^Vec::<.*>::as_(mut_)?slice$|^<Vec<.*> as AsRef<\[.*\]>>::as_ref$|^<Vec<.*> as Borrow<\[.*\]>>::borrow$"), m_deref_identity),
     (R(r" as Clone>::clone$| as ToOwned>::to_owned$"), m_clone),
     (R(r"^<str as ToString>::to_string$|^<String as ToString>::to_string$|^<str as ToOwned>::to_owned$|^<String as From<&str>>::from$|^must_use::<.*>$|^<&str as Into<String>>::into$|^<&str as ToString>::to_string$"), m_clone),
     (R(r" as PartialEq(<.*>)?>::(eq|ne)$"), m_partial_eq),
@@ -1058,6 +1111,8 @@ BASE_MODELS = [
     (R(r"^<\(.*\) as (Ord>::cmp|PartialOrd>::partial_cmp)$"), m_tuple_cmp),
     (R(r"^<(i|u)(\d+|size) as PartialOrd>::(lt|le|gt|ge)$"), m_int_ordop),
     (R(r"^core::num::<impl (i|u)(\d+|size)>::checked_(add|sub|mul)$"), m_checked_arith),
+    (R(r"^core::num::<impl (i|u)(\d+|size)>::(rem_euclid|div_euclid|checked_rem_euclid|checked_div_euclid|checked_div|checked_rem|wrapping_add|wrapping_sub|wrapping_mul|"
+       r"saturating_add|saturating_sub|saturating_mul|wrapping_neg|wrapping_abs|checked_neg|checked_abs|signum|is_negative|is_positive|abs_diff)$"), m_int_methods),
     (R(r"^std::f64::<impl f64>::trunc$"), m_f64_trunc),
     (R(r"^core::str::<impl str>::parse::<.*>$"), m_str_parse),
     (R(r"^core::str::<impl str>::len$|^String::len$"), m_str_len),
